@@ -146,7 +146,7 @@ theorem InPointClass.spread {pos : V3 ℝ} (h : InPointClass pos) :
     `s · e_k` with `s = sqrt(1 − ammount_spread)`, `1 − 1e-10 ≤ s² ≤ 1` — exactly one loudspeaker, exact zeros elsewhere -/
 theorem polarPointPan_at_unit (E : LayoutEnv ℝ) (L : PointSource.RawLayout) (pos : V3 ℝ) (n i : Nat) (hn : E.n = n)
     (hc : InPointClass pos) (hp : pspHandle L pos = some (Earverif.C13.unitR n i)) :
-    ∃ s : ℝ, 0 ≤ s ∧ s ≤ 1 ∧ 1 - 1 / 10000000000 ≤ s * s ∧
+    ∃ s : ℝ, 0 ≤ s ∧ s ≤ 1 ∧ 1 - 1 / 10000000000 ≤ s * s ∧ (1 ≤ norm3 pos → s = 1) ∧
       polarPointPan E L pos = some ((Earverif.C13.unitR n i).map (· * s)) := by
   obtain ⟨w, hh, he, ha0, ha1⟩ := hc.spread
   have hk : ((1 / 10000000000 : ℚ) : ℝ) = 1 / 10000000000 := by norm_num
@@ -154,9 +154,18 @@ theorem polarPointPan_at_unit (E : LayoutEnv ℝ) (L : PointSource.RawLayout) (p
     simp only [k_real, hk]; exact not_lt.mpr ha1
   have hpt : (k (1 / 10000000000) : ℝ) < one - amountSpread w hh := by
     simp only [k_real, hk, one_real]; linarith
-  refine ⟨Real.sqrt (1 - amountSpread w hh), Real.sqrt_nonneg _, ?_, ?_, ?_⟩
+  refine ⟨Real.sqrt (1 - amountSpread w hh), Real.sqrt_nonneg _, ?_, ?_, ?_, ?_⟩
   · exact Real.sqrt_le_iff.mpr ⟨by norm_num, by rw [one_pow]; linarith⟩
   · rw [Real.mul_self_sqrt (by linarith)]; linarith
+  · intro hfar
+    have hpd : polarDistances (norm3 pos) (zero : ℝ) = [norm3 pos] := by
+      simp only [polarDistances]
+      rw [if_pos ((eqS_real _ _).mpr rfl)]
+    simp only [polarExtents, hpd, List.map_cons, List.map_nil, extentMod_zero_far _ hfar, List.cons.injEq,
+      Prod.mk.injEq, and_true] at he
+    obtain ⟨rfl, rfl⟩ := he
+    have : amountSpread (0 : ℝ) 0 = 0 := by simp [amountSpread, maxS, interp]
+    rw [this]; simp
   · simp only [polarPointPan, he]
     rw [if_neg hs, hp]
     simp only [Option.map_some, polarHandle, he, List.map_cons, List.map_nil, polarCombine, calcPvSpread, hpt, hs,
